@@ -75,12 +75,12 @@ def handle (req : Sexp) : Sexp :=
     match stmts? ss, Expr.ofSexp? var, Expr.ofSexp? ref with
     | some ss, some var, some ref => optStmts (addAllometry ss p var ref theta)
     | _, _, _ => bad
-  | .list [.atom "transit", rs, n, .atom mdt] =>
-    match rs.asList?.bind (·.mapM rate?), n.asNat? with
-    | some rs, some n =>
-      let out := setTransits rs n mdt
+  | .list [.atom "transit", rs, n, .atom mdt, depot] =>
+    match rs.asList?.bind (·.mapM rate?), n.asNat?, depot.asBool? with
+    | some rs, some n, some depot =>
+      let out := setTransits rs n mdt depot
       .list (out.map (fun r => .list [Sexp.ofInt r.numer, .atom r.denom, (rateExpr r).toSexp]))
-    | _, _ => bad
+    | _, _, _ => bad
   | .list [.atom "tables"] =>
     .list [.list (Gen.effectDispatch.map (fun (k, m, a) => .list [.atom k, .atom m, Sexp.ofBool a])),
            .list (Gen.covOps.map (fun (k, v) => .list [.atom k, .atom v])),
